@@ -429,7 +429,7 @@ func TestC13Sync(t *testing.T) {
 						}
 					}
 					reLog, reHash, err := re.Commit(ctx, kv.Namespace, v)
-					re.Close()
+					keepRe := false
 					switch {
 					case err != nil:
 						rec.Label("recommit-not-accepted:" + srcBackend)
@@ -444,6 +444,19 @@ func TestC13Sync(t *testing.T) {
 						if s2 := checkServed("pending-recommitted", prevRoot, startModel); s2 != nil {
 							served = s2
 						}
+						if rootType == node.RootTypeState && rapid.Bool().Draw(t, "continueWithSecondTree") {
+							// the history goes on with the tree object that committed SECOND (its commit found the root in
+							// place): whatever that tree believes about where its nodes are stored must hold for the next versions
+							keepRe = true
+							rec.Label("continued-with-the-second-committer")
+							trace = append(trace, fmt.Sprintf("v%d: the history continues with the second committer's tree", v))
+						}
+					}
+					if keepRe {
+						tree.Close()
+						tree = re
+					} else {
+						re.Close()
 					}
 				}
 				if hop == hops-1 {
